@@ -323,6 +323,19 @@ static Case cases[] = {
          v += Memory::Move(v["child"]);   // object += object merges; the child lives in the table that grows
          return (v.IsObject() && v.Size() >= 8) ? 0 : (printf("expected the merged members\n"), 1);
      }},
+    // ---- C01 / C10: rounding carry past the last digit written into a full stream
+    {"digit_round_carry_full_stream", [] {
+         int bad = 0;
+         for (unsigned pre = 0; pre < 40; ++pre) {
+             StringStream<char> ss;
+             for (unsigned i = 0; i < pre; ++i) ss += 'a';
+             Digit::NumberToString(ss, 0.006, Digit::RealFormatInfo{2U, Digit::RealFormatType::SemiFixed});
+             Digit::NumberToString(ss, 0.996, Digit::RealFormatInfo{2U, Digit::RealFormatType::SemiFixed});
+             Digit::NumberToString(ss, 9.996, Digit::RealFormatInfo{2U, Digit::RealFormatType::Fixed});
+             Digit::NumberToString(ss, 99.99999, Digit::RealFormatInfo{3U, Digit::RealFormatType::Default});
+         }
+         return bad;
+     }},
 };
 
 int main(int argc, char **argv) {
